@@ -227,3 +227,110 @@ def _same(a, b):
 
 def _names(t):
     return tuple(getattr(x, "attrs", {}).get("label", x) for x in t) if isinstance(t, tuple) else t
+
+
+def r_reader(ctx):
+    """`get_class_constraints_duals` unrolled on a function holding two tables (a 2 x 3 grid with cells that hold no constraint, and a single
+    row): the table returned under each name has the multiplier of the constraint of cell (i, j) at (i, j), the scalar where the cell holds none,
+    and the row / column labels of the table it was made from."""
+    from ..nf import Rat
+    repo = ctx.repo
+    fn = repo.cls("Function").methods.get("get_class_constraints_duals")
+    if fn is None:
+        return 0
+    ctx.unit(qualname(fn))
+    mkc = lambda i, j: SymObj("Constraint", label="c%d%d" % (i, j), _dual_variable_value=Rat.sym("lam%d%d" % (i, j)))
+    grid = [[mkc(0, 0), 0, mkc(0, 2)], [mkc(1, 0), mkc(1, 1), 0]]
+    row = [[mkc(5, 0), mkc(5, 1)]]
+    mkdf = lambda data, cols, idx: SymObj("DataFrame", label="table", data=data, columns=SymObj("Index", label="columns", labels=cols, name="IC_f"),
+                                          index=SymObj("Index", label="index", labels=idx, name=None))
+    t1 = mkdf(grid, ["a", "b", "c"], ["r0", "r1"])
+    t2 = mkdf(row, ["u", "v"], [0])
+    me = SymObj("Function", label="self", tables_of_constraints={"grid": t1, "row": t2})
+
+    def on_call(node, it):
+        nm = call_name(node)
+        f = node.func
+        if isinstance(f, ast.Attribute):
+            try:
+                recv = it.ev(f.value) if (dotted(f.value) or "") not in ("np", "pd", "numpy", "pandas") else None
+            except AnalysisError:
+                recv = None
+            if isinstance(recv, SymObj) and recv.kind == "Constraint" and nm == "eval_dual" and not node.args:
+                return recv.attrs["_dual_variable_value"]
+            if isinstance(recv, SymObj) and recv.kind == "DataFrame":
+                if nm == "iterrows" and not node.args:
+                    return [(lab, list(r)) for lab, r in zip(recv.attrs["index"].attrs["labels"], recv.attrs["data"])]
+                if nm in ("to_numpy", "copy") and not node.args:
+                    return [list(r) for r in recv.attrs["data"]] if nm == "to_numpy" else recv
+                if nm == "itertuples":
+                    kw = {k.arg: it.ev(k.value) for k in node.keywords if k.arg}
+                    if kw.get("index") is False:
+                        return [tuple(r) for r in recv.attrs["data"]]
+            if nm == "DataFrame":
+                kw = {k.arg: it.ev(k.value) for k in node.keywords if k.arg}
+                args = [it.ev(a) for a in node.args]
+                return SymObj("DataFrame", label="out", data=args[0] if args else kw.get("data"), columns=kw.get("columns", args[2] if len(args) > 2 else None),
+                              index=kw.get("index", args[1] if len(args) > 1 else None))
+            if nm in ("array", "asarray") and len(node.args) == 1:
+                v = it.ev(node.args[0])
+                if isinstance(v, list):
+                    return v
+            if isinstance(recv, list) and nm == "tolist":
+                return recv
+        return NotImplemented
+
+    class _I(_Interp):
+        def ev(self, e):
+            if isinstance(e, ast.Attribute) and e.attr in ("values", "shape"):
+                b = self.ev(e.value)
+                if isinstance(b, SymObj) and b.kind == "DataFrame":
+                    return [list(r) for r in b.attrs["data"]] if e.attr == "values" else _shape(b.attrs["data"])
+            return super().ev(e)
+    env = {params_of(fn)[0]: me, "Constraint": ("type", "Constraint"), "float": ("type", "float"), "int": ("type", "int"), "Expression": ("type", "Expression")}
+    it = _I(env, on_call=on_call)
+    try:
+        ret = it.run(fn.body)
+    except AnalysisError as ex:
+        if "the index program raises" in str(ex):
+            ctx.ob("R-GENPROG", "Function.get_class_constraints_duals (unrolled)", False, "the reader raises on well-formed tables: %s" % ex, loc(fn, fn))
+            return 1
+        ctx.notes.append("R-GENPROG reader skipped: %s" % ex)
+        return 0
+    msg = None
+    if not (isinstance(ret, dict) and set(ret) == {"grid", "row"}):
+        msg = "returns `%r`, expected one table per stored table, under the same names" % (ret,)
+    else:
+        for name, src_t in (("grid", t1), ("row", t2)):
+            out = ret[name]
+            if not (isinstance(out, SymObj) and out.kind == "DataFrame"):
+                msg = "the entry `%s` is `%r`, not a table" % (name, out)
+                break
+            data, sdata = out.attrs["data"], src_t.attrs["data"]
+            if not (isinstance(data, list) and len(data) == len(sdata) and all(isinstance(r, list) and len(r) == len(sr) for r, sr in zip(data, sdata))):
+                msg = "table `%s` has not the shape of the table of constraints" % name
+                break
+            for i, sr in enumerate(sdata):
+                for j, c in enumerate(sr):
+                    want = c.attrs["_dual_variable_value"] if isinstance(c, SymObj) else c
+                    got = data[i][j]
+                    same = (got - want).is_zero() if type(got).__name__ == "Rat" and type(want).__name__ == "Rat" else (got == want and type(got) is type(want))
+                    if not same:
+                        msg = "table `%s`, cell (%d, %d): `%s`, expected `%s` (%s)" % (name, i, j, got, want, "the multiplier of the constraint of that cell"
+                                                                                       if isinstance(c, SymObj) else "the scalar stored there")
+                        break
+                if msg:
+                    break
+            if msg:
+                break
+            for side in ("columns", "index"):
+                lab = out.attrs[side]
+                labs = lab.attrs["labels"] if isinstance(lab, SymObj) else lab
+                if labs != src_t.attrs[side].attrs["labels"]:
+                    msg = "table `%s`: the %s are labelled %s, the table of constraints has %s" % (name, side, labs, src_t.attrs[side].attrs["labels"])
+                    break
+            if msg:
+                break
+    ctx.ob("R-GENPROG", "Function.get_class_constraints_duals (unrolled)", msg is None,
+           "cell (i, j) of every returned table is the multiplier of the constraint of cell (i, j), labels kept" if msg is None else msg, loc(fn, fn))
+    return 1
